@@ -52,3 +52,32 @@ CHECKS = {
     'text': 'At the end of every full-stack run VarzAggregator totals for the service must equal the harness\'s counts of dispatched / succeeded / failed calls, the number of series per metric must not exceed the number of distinct sources, per-source percentiles must lie within that source\'s samples and be monotone, and the recorded latency samples must match the latencies measured on the virtual clock.',
     'design_ref': 'DESIGN.md 5 C18', 'note': _STACK_NOTE},
 }
+
+_BAL_NOTE = ('Real dispatcher + timeout sink + balancer (via their Builders) over stub member channels (documented SinkProvider extension point) and a scripted ServerSetProvider; '
+             'per-node load / heap / idle set are read from the balancer for diagnosis as the anchors allow. Samples histories, does not enumerate them.')
+CHECKS.update({
+  'C03': {
+    'text': 'Seeded histories (20-400 ops, 1-12 members) of dispatches, completions in any order (reply/error/timeout/late reply), channels going down with/without fault signal and coming back, joins and leaves, for the heap and the aperture balancer with seeded library randomness. At every dispatch the stub that receives the request is compared with a reference model: the chosen member is open and has the minimum outstanding count among open members in use (any member if none is open; NoMembersError in the same instant if there is none).',
+    'design_ref': 'DESIGN.md 5 C03', 'note': _BAL_NOTE},
+  'C04': {
+    'text': 'Same worlds as C03 with the real timeout sink so that timeout-then-late-reply and double-completion paths exist: after every dispatch and at every quiescent point, for every node ever created, the balancer\'s load equals the model\'s dispatched-not-completed count (aperture total too), never negative; a member that left receives no request and its channel is closed at once if idle or down, otherwise exactly when its last request completes; plus an end-of-run load check on full Thrift/ThriftMux stacks.',
+    'design_ref': 'DESIGN.md 5 C04', 'note': _BAL_NOTE},
+  'C05': {
+    'text': 'Scripted join/leave histories (duplicates, unknown leaves, leave-while-loaded then re-join, notifications during a slow initial listing, failing Initialize) interleaved with traffic: whenever the notification queue has drained, the balancer\'s members (heap plus idle set) equal the server set without duplicates; for the heap balancer a saturation probe (3N never-completing calls) must reach exactly the current members.',
+    'design_ref': 'DESIGN.md 5 C05', 'note': _BAL_NOTE + ' The ZooKeeper-backed provider is covered by C19.'},
+  'C06': {
+    'text': 'Aperture balancer under generated configurations (min/max size, load band, members, jitter) and histories: at every quiescent point active and idle sets partition the members, contraction keeps min(min_size, members) active, growth without failures stays within max_size, published gauges equal the sets; steady-traffic runs hold a constant concurrency for 70 virtual seconds (14 EMA windows) and flag only the unambiguous cases (should have grown / should have shrunk).',
+    'design_ref': 'DESIGN.md 5 C06', 'note': _BAL_NOTE},
+  'C15': {
+    'text': 'The client built by Kafka.NewBuilder() runs against 1-3 simulated brokers that parse every byte with the harness\'s own v0 parser: header (size, api key, version 0, correlation id, client id), one topic / one partition, message-set and message sizes, CRC32, payloads equal to the caller\'s (empty list, empty, binary, 70 kB), acks, routing to the partition leader from the metadata response; concurrent Puts with reordered, chunked replies must each receive the response generated for their own correlation id, broker error codes must surface as KafkaError with that code.',
+    'design_ref': 'DESIGN.md 5 C15', 'note': 'Brokers and the v0 codec are harness code written from the protocol guide. Completion/deadline behaviour of the Kafka router is not part of C15 (see DESIGN.md 7). The all-inputs dimension is sampled.'},
+  'C16': {
+    'text': 'Seeded histories over stub transports: (a) dispatcher + timeout sink + SingletonPoolSink with sequential and concurrent first requests (slow opens), failures of the connection at any point, extra Open/Close holders: at most one live connection, requests share it, a fresh one after failure; (b) RefCountedSink obtained per holder from SharedSinkProvider: underlying Open only on 0->1, Close only on 1->0, surplus closes ignored, same open result for all holders, same key -> same sink while a holder is alive (and a new one after all dropped it).',
+    'design_ref': 'DESIGN.md 5 C16', 'note': 'Stub transports are harness code; gc.collect() is called explicitly when a holder drops its reference.'},
+  'C17': {
+    'text': 'WhenAll / WhenAny over 1-6 inputs with seeded success/failure, a seeded subset already complete at call time and completion instants that collide (order then chosen by the loop\'s seeded tie-break); Unwrap over chains of depth 0-5 with failures at any level; ContinueWith/Map with value/raising/nested continuations, on and off the hub. After every step the combined result is compared with a reference and must never change once resolved.',
+    'design_ref': 'DESIGN.md 5 C17', 'note': 'n = 0 inputs is excluded (the statement is vacuous there). Real gevent AsyncResult on SimLoop.'},
+  'C19': {
+    'text': 'The real ServerSet / ZooKeeperServerSetProvider and the real kazoo DataWatch / ChildrenWatch recipes run over an in-process ZooKeeper (versions, one-shot watches registered atomically with reads, FIFO response/event channel, seeded per-hop latency): histories of member create/delete, deletes racing with listing and reads, non-member children, deletion and re-creation of the watched path (sequence names recur), consumer callbacks that raise. At quiescence the consumer (which applies notifications the way the balancers do) must hold exactly the members present, and no member may be reported joined/left twice in a row.',
+    'design_ref': 'DESIGN.md 5 C19', 'note': 'The ZooKeeper server and client transport are harness code; session loss is not injected. One known finding (K-C19-1) is matched by its history class only.'},
+})
